@@ -8,9 +8,22 @@ KeysSmall == << <<0>>, <<0, 0>>, <<0, 255>>, <<255>> >>
 \* keys are non-empty: juno always prefixes a bucket byte (the empty key is probed separately, see checks/C15.py)
 KeysFull == << <<0>>, <<0, 0>>, <<0, 255>>, <<1>>, <<255>>, <<255, 255>> >>
 PrefixesSmall == { <<>>, <<0>>, <<255>> }
+\* the edge cover (KVCover.tla): <<0, 255>> gives a proper prefix range with keys below AND above it
+PrefixesCover == { <<>>, <<0>>, <<0, 255>>, <<255>> }
 PrefixesFull == { <<>>, <<0>>, <<0, 0>>, <<0, 255>>, <<1>>, <<255>>, <<255, 255>> }
+\* tiny alphabet: all features together, exhaustively, and the mutants
+KeysTiny == << <<0>>, <<0, 255>> >>
+PrefixesTiny == { <<>>, <<0>> }
+ValsTiny == {"a"}
 ValsSmall == {"a", "b"}
 ValsFull == {"", "a", "b"}
+
+\* mutants (expected-violation configurations KV_x_*.cfg: CONSTANTS Mutant <- Mut...)
+MutSeekFromCurrent == "seek-from-current"
+MutPrevAfterSeekMiss == "prev-after-seekmiss"
+MutHasIgnoresOwnDelete == "has-ignores-own-delete"
+MutBatchIterIgnoresRange == "batchiter-ignores-range"
+MutSnapHasLive == "snap-has-live"
 
 \* alphabet of the concurrent level (KVLin.tla): each key stands for a GROUP of real keys
 \* <<g>> \o <<i1, i2>> in the Go engine, so no key may extend another one
